@@ -53,6 +53,10 @@ Sels ==
   \cup {<<Seg("", <<Key("c.d")>> \o t)>> : t \in {x \in Tails : Len(x) <= 1}}
   \cup {<<Seg("", <<Key("c::d")>> \o t)>> : t \in {x \in Tails : Len(x) <= 1}}
   \cup {<<Seg("", <<Key("zz")>> \o t)>> : t \in {x \in Tails : Len(x) <= 1}}
+  \* a continuation behind a part that yields NULL (a missing key) still runs: a function there is applied (to NULL), an
+  \* unknown one is an error
+  \cup {<<Seg("", <<Key("zz")>> \o t), Seg(fn, u)>> : t \in {<<>>, <<Key("p")>>}, fn \in {"mix", "distinct", "nosuch", ""}, u \in {<<>>, <<Key("p")>>}}
+  \cup {<<Seg("", <<Key("a"), Key("zz")>>), Seg(fn, <<>>)>> : fn \in {"mix", "distinct", "nosuch"}}
 
 \* histories: the result of a selector is a function of (document, selector text) - not of the
 \* selectors evaluated before it in the same process (the library caches parsed selectors by text).
